@@ -16,6 +16,12 @@ SHAPES = {
 }
 
 
+# end-to-end only: a member that RECEIVES data (a watched signal with samples) but never audits a period — the
+# interpretation rules only count auditors that audited at least one period
+WATCHING = ("only while [a v] > 100", "always", "[a v] >= 0", [])
+WATCH_ROLE = ('  spotlight while true; do echo "v 5"; sleep 0.02; done\n  signal v scalar at (?P<ts_now>)v (?P<scalar>\\d+)')
+
+
 def gen_ops(rng, names):
     """random sequence of audience mentions and interpretation clauses (in file order)"""
     ops = []
@@ -189,11 +195,13 @@ def run(tier, seed):
                 combos.append((sh, mb, mg))
     if tier == "quick":
         combos = [c for i, c in enumerate(combos) if i % 2 == (seed % 2)] + [("bad-and-good", 1, 2), ("no-data", 2, 2)]
+    combos += [("watching-never-active", 2, 2), ("watching-never-active", 0, 2), ("watching-never-active", 2, 0)]
     for sh, mb, mg in combos:
         for early in (False, True):
             ops = [("M", "bob"), ("S", mb, "bob", "d"), ("S", mg, "bob", "s")]
-            text = PLAY_HEAD % ("", "ok") + ops_text(ops, {"bob": SHAPES[sh]})
-            reports = ",".join("%s:%d" % (hexs("bob"), c) for c in SHAPES[sh][3]) or "-"
+            shp = WATCHING if sh == "watching-never-active" else SHAPES[sh]
+            text = PLAY_HEAD % (WATCH_ROLE if sh == "watching-never-active" else "", "ok") + ops_text(ops, {"bob": shp})
+            reports = ",".join("%s:%d" % (hexs("bob"), c) for c in shp[3]) or "-"
             m = model.ask("C03 collect %s 0 %s" % (ops_tokens(ops), reports))
             exp = "fouls=true" in m
             add(text, ["-S"] if early else [], exp, "auditor bob in shape %s with %s disappointment / %s satisfaction%s" % (sh, MODES[mb], MODES[mg], ", -S" if early else ""),
